@@ -97,6 +97,8 @@ def run(ctx):
     jobs, metas = [], []
     for i in range(ndefs):
         d = share_definition(ctx.rng, transcend=(i % 5 == 4))
+        if i == 1:
+            d = gen.paired_powers_definition(ctx.rng)
         d._kind = "ekf"
         rational = eh.is_rational(d)
         process, sensor = eh.make_noises(ctx.rng, d)
@@ -110,6 +112,9 @@ def run(ctx):
                 with gen.LambdifyRecorder():
                     ekf = eh.compile_ekf(d, process, sensor, cal, ctx.rng, cse=cse)
                 blocks = py_blocks(ekf, d)
+            except gen.Untranslatable as e:
+                ctx.count("untranslatable_definition"); ctx.notes.append(f"definition outside the translator's fragment: {e}")
+                continue
             except Exception as e:
                 ctx.fail(f"compile-ekf-raises:{fk.exc_kind(e)}", f"compile_ekf (cse={cse}) raises {e!r}"[:300], desc)
                 continue
@@ -188,8 +193,36 @@ def run(ctx):
                     if not core.close(x, y, scale=1.0):
                         ctx.fail("cse-on-off:cpp", f"generated C++ output {key} differs with CSE on vs off: {x!r} vs {y!r}", {"unit": i, "key": key})
                         break
+    custom_modules(ctx)
     C02.settle(ctx, drv.run(), pending)
     return core.finish(ctx, audit, NOTE, RULE, PARTIAL)
+
+
+def custom_modules(ctx):
+    """Config.python_modules: the same symbolic model compiled under two different implementations of a user function, CSE on
+    and off each; within one set of modules CSE must not change a value"""
+    from formak import python, ui
+    x, v, dt = sympy.symbols("px pv dt")
+    drag = sympy.Function("drag")
+    model = ui.Model(dt=dt, state={x, v}, control=set(), state_model={x: x + dt * v + drag(v) * dt, v: v - drag(v) * dt + drag(v) * drag(v) * dt / 4})
+    results = {}
+    for tag, impl in (("A", lambda q: 2.0 * q), ("B", lambda q: q * q * q)):
+        mods = ("scipy", "numpy", "math", {"drag": impl})
+        for cse in (True, False):
+            case = {"stream": "custom-python-modules", "modules": tag, "cse": cse}
+            ctx.case(case, True); ctx.count("stream=custom-python-modules")
+            try:
+                with fk.quiet():
+                    pm = python.compile(model, config=python.Config(common_subexpression_elimination=cse, python_modules=mods))
+                    r = pm.model(0.125, pm.State(px=1.5, pv=-0.75))
+                results[(tag, cse)] = fk.by_name(r)
+            except Exception as e:
+                ctx.fail(f"custom-modules-raises:{fk.exc_kind(e)}", repr(e)[:300], case)
+    for tag in ("A", "B"):
+        if (tag, True) in results and (tag, False) in results:
+            a, b = results[(tag, True)], results[(tag, False)]
+            if any(not core.close(a[k], b[k], scale=1.0, tol=1e-9) for k in a):
+                ctx.fail("cse-on-off:python:custom-modules", f"modules {tag}: CSE on gives {a}, CSE off gives {b}", {"stream": "custom-python-modules", "modules": tag})
 
 
 def replay(ctx, data):
